@@ -122,7 +122,21 @@ CFG = {
     "stages": ["go:gen", "go:impl", "lean:judge"],
     "pregen": pregen,
     "post": post,
-    "theorems": [T + n for n in ["C09_ellipsoids", "C09_datums", "C09_primeMeridians", "C09_units"]],
+    "theorems": [T + n for n in [
+        # (C) tables, regenerated from both sources
+        "C09_ellipsoids", "C09_datums", "C09_primeMeridians", "C09_units",
+        # (A) proj/common.go (T1-generated) = lib/common/*.js, all arguments
+        "go_e0fn_eq_js", "go_e1fn_eq_js", "go_e2fn_eq_js", "go_e3fn_eq_js", "go_e3fn_one", "go_mlfn_eq_js",
+        "go_msfnz_eq_js", "go_tsfnz_eq_js", "go_qsfnz_eq_js", "go_sign_eq_js", "go_adjust_lon_eq_js",
+        "go_adjust_lat_eq_js", "go_asinz_eq_js", "go_phi2z_eq_js", "go_imlfn_eq_js", "go_consts_eq_js",
+        # (A) projection level, Go closures = proj4js methods
+        "go_merc_fwd_eq_js", "go_aea_fwd_eq_js", "go_eqdc_fwd_eq_js", "go_tmerc_fwd_eq_js",
+        # (B) Snyder's closed forms
+        "snyder_mdist_eq", "snyder_m_eq", "snyder_t_eq", "snyder_q_eq",
+        "snyder_merc_eq", "snyder_lcc_eq", "snyder_aea_eq", "snyder_eqdc_eq",
+        # the known finding, proved on the model
+        "tmerc_sphere_ignores_false_origin",
+    ]],
     "trusted_base": [
         "Lean 4.33.0 kernel; axioms of every theorem printed by #print axioms must be within {propext, Classical.choice, Quot.sound}",
         "T1 extractor harness/cmd/c09/extract (go/ast + go/types constant folding; regex over the proj4js object literals): "
